@@ -53,7 +53,7 @@ def reconEnd (r : ReconSt) : String :=
 
 
 structure S where
-  variant : Recon.Variant := { bitBeforeStore := true }
+  variant : Recon.Variant := { bitBeforeStore := false }
   recon : ReconSt := {}
 
 def step (st : S) (toks : List String) : Option (S × String) :=
